@@ -20,6 +20,15 @@ go test -short ./compile/ ./compile/ast/ with the mutant):
   N13 folder.go   ^ folded with identity 1                                        tests green   VIOLATION
   N21 folder.go   foldIn ignores the first member                                 tests green   VIOLATION
   N22 folder.go   or-to-in conversion drops a true first alternative              tests green   VIOLATION
+  finality (which locals PropFold may treat as single-assignment; forms mod-* / in-* of cmd/fold), on main:
+  S1  function.go   second variable of `for m, v in ob` not disqualified (seeded/C30-forin-second-var-final)
+                                                                                  tests green   VIOLATION (mod-/in-forin2-second)
+  F1  function.go   first variable of for-in not disqualified                     tests green   VIOLATION (mod-/in-forin1, -forin2-first)
+  F2  function.go   catch variable not disqualified                               tests green   VIOLATION (mod-/in-catch)
+  F8  function.go   targets of a multiple assignment a, b = f() not disqualified  tests green   VIOLATION (mod-multiassign)
+  F9  expression.go implicit block parameter `it` not disqualified                tests green   VIOLATION (in-itparam)
+  F3 block parameters, F4 postfix ++/--, F6 += etc., F7 locals assigned inside a block not disqualified:
+      all VIOLATION, but the package's own tests fail with them
   N5  propfold.go operands after a false `and` operand replaced by true           tests green   not reported: equivalent (the
                   folder then short-circuits on the false operand anyway)
   N1 fold <= as <, N3 ?: false takes the true branch, N6 if false takes then, N8 shortcut restored,
@@ -193,6 +202,8 @@ def run(ctx):
                         [("mix", m["r"]) for m in e2["mix"]] + [(m["form"], m["r"]) for m in e2["extra"]] + [("se", m["r"]) for m in e2["se"]]:
                     if r["k"] != "ce" and rs(r) != rs(e2["par"]):
                         dev[name] = dev.get(name, 0) + 1
+                    elif r["k"] == "ce" and name[:4] in ("mod-", "in-f", "in-b", "in-c", "in-i") and e2["par"]["k"] == "v":
+                        dev[name + ":compile-error"] = dev.get(name + ":compile-error", 0) + 1
             what = "%d generated expressions change meaning when folded / propagated (forms deviating from the run-time form: %s), first: %s  %s mix=%s extra=%s se=%s (recorded-finding shapes present: %s)" % (
                 len(unknown), dev or "none: par itself differs from Eval", ev["src"], forms,
                 [rs(m["r"]) for m in ev["mix"]], [m["form"] + "=" + rs(m["r"]) for m in ev["extra"]],
